@@ -54,6 +54,13 @@ class Ctx:
     def fn(self, spec):
         return frontend.resolve(self.repo, spec)[0]
 
+    def fn_opt(self, spec):
+        """helper functions that a refactoring may have removed or not yet introduced: None when absent"""
+        try:
+            return frontend.resolve(self.repo, spec)[0]
+        except LookupError:
+            return None
+
 
 # ------------------------------------------------------------------------------------------ solving
 def _solve_api(hyps, goal, timeout_ms, facts=()):
@@ -177,7 +184,7 @@ def verify(contract, repo, tier="quick"):
             res["error"] = "vacuous precondition in case %s" % case.label
             return res
         try:
-            paths = E.run(func, case.args, st0, label=info["qualname"])
+            paths = E.run(func, case.args, st0, label=info["qualname"]) if case.args is not None else []
         except Unsupported as e:
             res["out_of_reach"] = "case %s: %s" % (case.label, e)
             return res
@@ -186,7 +193,7 @@ def verify(contract, repo, tier="quick"):
             return res
         res["n_paths"] += len(paths)
         res["inlined"] = sorted(set(res["inlined"]) | set("%s::%s@%s" % (i["file"], i["qualname"], i["sha256"][:12]) for i in E.inlined.values()))
-        if len(paths) < case.expect_paths:
+        if case.args is not None and len(paths) < case.expect_paths:
             res["error"] = "case %s: %d paths (< %d expected): vacuous" % (case.label, len(paths), case.expect_paths)
             return res
         obls = []
